@@ -9,6 +9,7 @@ import (
 	"encoding/hex"
 	"errors"
 	"fmt"
+	"io"
 	"math/rand"
 	"os"
 	"os/exec"
@@ -124,6 +125,10 @@ func (e *cliEnv) run(dir string, argv []string, stdin []byte, hasStdin, argsHook
 	}
 	if hasStdin {
 		cmd.Stdin = bytes.NewReader(stdin)
+		if len(stdin) > 10 && len(stdin)%5 == 0 {
+			// the program arrives over the pipe in several writes with pauses between them
+			cmd.Stdin = &pausedReader{b: stdin, step: len(stdin)/3 + 1}
+		}
 	}
 	var so, se bytes.Buffer
 	cmd.Stdout, cmd.Stderr = &so, &se
@@ -577,4 +582,31 @@ func cliWrittenBy(run *cliRun, name string) bool {
 		}
 	}
 	return false
+}
+
+// pausedReader hands its bytes over in pieces with a pause before each later piece.
+type pausedReader struct {
+	b    []byte
+	step int
+	n    int
+}
+
+func (p *pausedReader) Read(q []byte) (int, error) {
+	if len(p.b) == 0 {
+		return 0, io.EOF
+	}
+	if p.n > 0 {
+		time.Sleep(25 * time.Millisecond)
+	}
+	p.n++
+	k := p.step
+	if k > len(p.b) {
+		k = len(p.b)
+	}
+	if k > len(q) {
+		k = len(q)
+	}
+	copy(q, p.b[:k])
+	p.b = p.b[k:]
+	return k, nil
 }
